@@ -42,7 +42,12 @@ func specRun(engine string, rules []ruleJ, req []bool) (*obsJ, []string) {
 		}
 		return false
 	}
-	matches := func(l linkJ) bool { return l.Key < 0 || (l.Key < len(req) && req[l.Key]) }
+	matches := func(l linkJ) bool {
+		if l.Body && o.Intr != nil && o.Intr[0] == 1 {
+			return false // interrupted in phase 1: the request body is never processed
+		}
+		return l.Key < 0 || (l.Key < len(req) && req[l.Key])
+	}
 	for p := 1; p <= 5; p++ {
 		if mode == "Off" {
 			break // nothing is evaluated any more, not even the logging phase
@@ -266,12 +271,37 @@ func configure(ds []ruleJ) ([]ruleJ, []string) {
 			var own []actJ
 			hasDa := false
 			block := false
-			for _, a := range writtenActs(d) {
+			// several disruptive actions in one list: the last one written counts, with its own parameter
+			written := writtenActs(d)
+			lastDis := -1
+			nDis := 0
+			for i, a := range written {
+				if isDisruptive(a) {
+					lastDis = i
+					nDis++
+				}
+			}
+			if nDis > 1 {
+				kinds = append(kinds, "several-disruptive-last-is-"+written[lastDis].A+written[lastDis].Scope)
+			}
+			placed := false
+			for _, a0 := range written {
+				a := a0
+				if isDisruptive(a) {
+					if placed {
+						continue
+					}
+					placed = true
+					a = written[lastDis]
+				}
 				switch a.A {
 				case "block":
 					block = true
 				case "pass":
 					hasDa = true
+				case "drop", "redirect":
+					hasDa = true
+					own = append(own, actJ{A: "deny"})
 				case "allow", "deny":
 					hasDa = true
 					own = append(own, a)
